@@ -7,11 +7,11 @@ CLAIMED = {
  "C01": dict(cat="model_checking", ref="§C01",
    text="TLC model-checks the declarative calendar (axiomatic successor-day walk over the 400-year cycle vs the arithmetic definitions, range constants, wide conversions) and emits gmtime vectors that are replayed into the crate; seeded instants over the whole i64 range are executed and the recorded trace is validated event by event by TLC against the same specification (all fields, week day, year day, refusals, plus the date-time invariant).",
    note="Trusted: TLC/SANY/CommunityModules, the TLA+ calendar axioms, harness limb/byte formatting. Quick tier walks a seeded sample of 40 of the 400 years and a third of their days; thorough walks all. Conformance is exhaustive only on the emitted vectors, sampled beyond.",
-   tech="TLA+ spec (Cal/DateTime) + TLC model checking + TLC-generated vectors replayed + TLC trace validation"),
+   tech="TLA+ spec (Cal/DateTime, algorithm layer AlgoCal refined by TLC on every walked day) + TLC model checking + TLC-generated vectors replayed + TLC trace validation"),
  "C02": dict(cat="model_checking", ref="§C02",
    text="Same calendar model: TLC checks timegm = inverse of gmtime on every walked day, second 60 = next minute, strict monotonicity, refusal of the day after each month end; emits timegm vectors (valid and refused) replayed into UtcDateTime::new and DateTime::new; seeded field tuples (valid and invalid, all u8 corners, i32 extremes) and ordered pairs are trace-validated by TLC (verdict, error kind, unix time, derived order = order of instants for seconds < 60).",
    note="Trusted as C01. Error kinds with several simultaneous defects are judged against the set of violated clauses.",
-   tech="TLA+ spec (Cal/DateTime) + TLC model checking + vectors replayed + TLC trace validation"),
+   tech="TLA+ spec (Cal/DateTime, algorithm layer AlgoCal) + TLC model checking + vectors replayed + TLC trace validation"),
  "C16": dict(cat="model_checking", ref="§C16",
    text="TLC checks the split/join laws (floor, 0<=ns<1e9, recombination, monotone steps) on wide integers within R of 19 anchors (multiples of 1e9, i64 and i128 ends of the seconds and of the count itself, range ends) and emits vectors for the three from_total_nanoseconds constructors; seeded i128 counts (incl. range-end counts through fixed-offset zones) are trace-validated. Thorough tier: TLAPS proof of the split laws for every integer count (uniqueness of floor, monotonicity, successor).",
    note="Trusted: Wide.tla (itself model-checked against TLC's native integers by MC_Wide), TLC, harness formatting.",
@@ -23,11 +23,11 @@ CLAIMED = {
  "C05": dict(cat="model_checking", ref="§C05",
    text="Search results are judged against the preimage of the zone's clock (ValidInstants) computed by the TLA+ spec: soundness, completeness, no duplicates, each entry's fields/type/instant. Exhaustive on the scaled zone model (TLC also proves round trip and totality there), sampled on seeded zones with leap tables, full-range offsets, overlapping candidates and trailing rules; every event is validated by TLC. The search walk of the algorithm layer (Algo.tla: AFind, the table walk and the rule window walk in the shape of find_date_time) is model-checked to return exactly the declarative entries on every scaled zone and on a family of rule zones, every recorded search is also compared with it, and the recorded finding K1 is reproduced by TLC as a required-to-fail witness.",
    note="Outside MustSucceed (a candidate instant outside the supported range, year outside the rule guard) OutOfRange or the exact content are both admitted. Rules with start = end in every year are outside the judged domain. On zones of the recorded classes K1/K2 a disagreement is the known finding only if the result equals the algorithm layer's (as-implemented) and its tag is one the finding explains.",
-   tech="TLA+ spec (Find, Algo) + TLC model checking incl. refinement of the search walk + vectors replayed + TLC trace validation"),
+   tech="TLA+ spec (Find, Algo) + TLC model checking incl. refinement of the search walk + vectors replayed + TLC trace validation (+ TLAPS proofs of the table walk and the rule window for inputs of any size, thorough)"),
  "C06": dict(cat="model_checking", ref="§C06",
    text="Gaps are specified per transition (structural definition), results must be a permutation-free match of ValidInstants + Gaps in non-decreasing order of instant, and unique/earliest/latest must be the functions of the returned list the statement describes; exhaustive on the scaled model, sampled beyond, all validated by TLC.",
    note="As C05. Order among equal instants is unconstrained, as the statement leaves it.",
-   tech="TLA+ spec (Find) + TLC model checking + vectors replayed + TLC trace validation"),
+   tech="TLA+ spec (Find, Algo) + TLC model checking + vectors replayed + TLC trace validation (+ TLAPS proofs of the table walk and the rule window, thorough)"),
  "C12": dict(cat="model_checking", ref="§C12",
    text="The two time scales are defined from the physical meaning of leap records; TLC checks monotonicity, round trip for non-deleted instants, inserted second sharing, and 'reported transition instant = switch point of the forward lookup' on the scaled model; lookups (forward conversion) and Skipped entries (inverse conversion) on probe zones with random valid tables (both signs, <= 40 records) and the real 27-record table are validated by TLC. Thorough tier: TLAPS proofs of the forward scan and of the repaired inverse conversion for leap tables of any length.",
    note="A genuine defect (negative leap second at a transition's own count) was found and repaired: see known_findings.json 'fixed'.",
